@@ -60,10 +60,13 @@ def thread_catalogue(t, e, tag, rnd, n_random):
     same = C("same", V(0), V(0))
     hand.append([As(same), As(C("tri", V(0), V(1), V(0))), S(1, C("same", A(tag + "s"), V(0)), 1), S(2, C("tri", A(tag + "t"), V(0), V(1)), 2), S(3, C("same", V(0), C("f", V(1))), 2)])
     hand.append([As(same), Q(1, C("same", V(0), A(tag + "u")), 1), N(1), S(2, C("same", C("g", V(0)), C("g", A(tag + "w"))), 1), N(1)])
+    hand.append([As(C("d", A(tag + "1"))), S(1, C("retractall", C("d", V(0))), 1), As(C("d", A(tag + "2"))), S(2, C("d", V(0)), 1)])
+    hand.append([As(C("foo", A(tag + "f"))), S(1, C("retractall", C("foo", V(0))), 1), S(2, C("retractall", C("d", V(0))), 1), As(C("foo", A(tag + "g"))), S(3, C("d", V(0)), 1)])
     menu = [lambda i: L("A"), lambda i: L("B"), lambda i: L("A", False), lambda i: L("B", False), lambda i: As(C("d", A(tag + str(i)))),
             lambda i: As(C("foo", A(tag + "fact")), False), lambda i: S(50 + i, C("retract", C("d", V(0))), 1, 1), lambda i: Reg, lambda i: Clr,
             lambda i: Q(1, foo, 1), lambda i: Q(2, bar, 2), lambda i: N(1), lambda i: N(2), lambda i: Cl(1), lambda i: Cl(2, "drop"),
-            lambda i: S(60 + i, foo, 1), lambda i: S(70 + i, upd, 1, 2)]
+            lambda i: S(60 + i, foo, 1), lambda i: S(70 + i, upd, 1, 2), lambda i: S(80 + i, C("retractall", C("d", V(0))), 1),
+            lambda i: S(90 + i, C("retractall", C("foo", V(0))), 1)]
     rand = []
     for _ in range(n_random):
         n = rnd.randint(3, 5)
@@ -218,6 +221,12 @@ def run(tier, seed):
     pairs = list(itertools.product(range(len(c1)), range(len(c2))))
     rnd.shuffle(pairs)
     pairs = pairs[:40 if tier == "quick" else 400]
+    # the hand-made scripts that empty a predicate and assert again meet each other in any case
+    nh = len(h1)
+    for i in (nh - 2, nh - 1):
+        for j in (nh - 2, nh - 1):
+            if (i, j) not in pairs:
+                pairs.append((i, j))
     scns = []
     for i, j in pairs:
         a, b = c1[i], c2[j]
